@@ -5,13 +5,14 @@ use std::marker::PhantomData;
 
 use serde::{Deserialize, Serialize};
 use winter_air::{
-    Air, AirContext, Assertion, AuxRandElements, ConstraintCompositionCoefficients, EvaluationFrame, ProofOptions,
-    TraceInfo, TransitionConstraintDegree,
+    Air, AirContext, Assertion, AuxRandElements, ConstraintCompositionCoefficients, EvaluationFrame, GkrVerifier,
+    LagrangeKernelRandElements, ProofOptions, TraceInfo, TransitionConstraintDegree,
 };
 use winter_crypto::{ElementHasher, RandomCoin};
-use winter_math::{ExtensibleField, FieldElement, StarkField, ToElements};
+use winter_math::{ExtensibleField, ExtensionOf, FieldElement, StarkField, ToElements};
 use winter_prover::{
-    matrix::ColMatrix, DefaultConstraintEvaluator, DefaultTraceLde, Prover, StarkDomain, TracePolyTable, TraceTable,
+    matrix::ColMatrix, DefaultConstraintEvaluator, DefaultTraceLde, Prover, ProverGkrProof, StarkDomain, Trace,
+    TracePolyTable,
 };
 
 use crate::common::Rng;
@@ -43,6 +44,20 @@ pub struct Shape {
     /// columns with next = (i+1) - cur (period two), so that periodic assertions on them are satisfiable
     #[serde(default)]
     pub neg: Vec<usize>,
+    /// auxiliary segment (0 columns = single-segment trace).  Column j < aux_degs.len() is a running sum
+    /// (aux_degs[j] = 1: next = cur + r_j * main_cur[j % width]) or a running product (aux_degs[j] = 2:
+    /// next = cur * (main_cur[j % width] + r_j)) over the random elements r; with `lagrange` one more column, the last,
+    /// is the Lagrange kernel column whose constraints the library builds itself
+    #[serde(default)]
+    pub aux_degs: Vec<usize>,
+    #[serde(default)]
+    pub aux_rands: usize,
+    #[serde(default)]
+    pub lagrange: bool,
+    /// assertions on running-sum/product columns (col = index in the auxiliary segment); the asserted value of a sum
+    /// column at step s is r_j * (public prefix sum of the main column up to s), of a product column 1 at step 0
+    #[serde(default)]
+    pub aux_asserts: Vec<AsrSpec>,
 }
 
 impl Shape {
@@ -51,6 +66,55 @@ impl Shape {
     }
     pub fn is_neg(&self, i: usize) -> bool {
         self.neg.contains(&i)
+    }
+    pub fn aux_width(&self) -> usize {
+        self.aux_degs.len() + self.lagrange as usize
+    }
+    pub fn trace_info(&self) -> TraceInfo {
+        if self.aux_width() == 0 {
+            TraceInfo::new(self.width, self.n)
+        } else {
+            TraceInfo::new_multi_segment(self.width, self.aux_width(), self.aux_rands, self.n, vec![])
+        }
+    }
+    /// random element of auxiliary column j
+    pub fn rand_of<E: FieldElement>(&self, j: usize, rands: &[E]) -> E {
+        if rands.is_empty() {
+            E::ONE
+        } else {
+            rands[j % rands.len()]
+        }
+    }
+    /// next value of auxiliary column j (the functional reading of its transition constraint)
+    pub fn aux_step<B: StarkField, E: FieldElement<BaseField = B>>(&self, j: usize, cur: E, main_cur: &[B], rands: &[E]) -> E {
+        let m = E::from(main_cur[j % self.width]);
+        let r = self.rand_of(j, rands);
+        if self.aux_degs[j] == 1 {
+            cur + r * m
+        } else {
+            cur * (m + r)
+        }
+    }
+    /// the auxiliary columns that follow from the main columns and the random elements (the Lagrange kernel column last)
+    pub fn build_aux<B: StarkField, E: FieldElement<BaseField = B>>(&self, main: &[Vec<B>], rands: &[E], lagrange: Option<&[E]>) -> Vec<Vec<E>> {
+        let mut cols: Vec<Vec<E>> = vec![];
+        for j in 0..self.aux_degs.len() {
+            let mut col = Vec::with_capacity(self.n);
+            col.push(if self.aux_degs[j] == 1 { E::ZERO } else { E::ONE });
+            for i in 0..self.n - 1 {
+                let mc: Vec<B> = main.iter().map(|c| c[i]).collect();
+                col.push(self.aux_step(j, col[i], &mc, rands));
+            }
+            cols.push(col);
+        }
+        if self.lagrange {
+            let r = lagrange.expect("lagrange random elements");
+            let col = (0..self.n)
+                .map(|row| r.iter().enumerate().fold(E::ONE, |acc, (bit, &ri)| if row & (1 << bit) == 0 { acc * (E::ONE - ri) } else { acc * ri }))
+                .collect();
+            cols.push(col);
+        }
+        cols
     }
     pub fn steps_of(&self, a: &AsrSpec) -> Vec<usize> {
         match a.kind.as_str() {
@@ -118,6 +182,8 @@ impl Shape {
 pub struct ShapeInputs<B: StarkField> {
     pub shape: Shape,
     pub values: Vec<Vec<B>>, // asserted values, per assertion
+    /// per auxiliary assertion on a running-sum column: the prefix sums of the main column at the named steps
+    pub aux_values: Vec<Vec<B>>,
 }
 
 impl<B: StarkField> ShapeInputs<B> {
@@ -133,7 +199,20 @@ impl<B: StarkField> ShapeInputs<B> {
                 }
             })
             .collect();
-        ShapeInputs { shape: shape.clone(), values }
+        let aux_values = shape
+            .aux_asserts
+            .iter()
+            .map(|a| {
+                let col = &cols[a.col % shape.width];
+                let prefix = |s: usize| col[..s].iter().fold(B::ZERO, |acc, &x| acc + x);
+                let steps = shape.steps_of(a);
+                match a.kind.as_str() {
+                    "sequence" => steps.iter().map(|&s| prefix(s)).collect(),
+                    _ => vec![prefix(steps[0])],
+                }
+            })
+            .collect();
+        ShapeInputs { shape: shape.clone(), values, aux_values }
     }
 }
 
@@ -156,6 +235,14 @@ impl<B: StarkField> ToElements<B> for ShapeInputs<B> {
         for vals in &self.values {
             v.extend(vals.iter().cloned());
         }
+        v.extend(s.aux_degs.iter().map(|&d| B::from(d as u32)));
+        v.extend([B::from(s.aux_rands as u32), B::from(s.lagrange as u32)]);
+        for a in &s.aux_asserts {
+            v.extend([B::from(a.col as u32), B::from(a.first as u32), B::from(a.stride as u32), B::from(a.count as u32), B::from(a.kind.len() as u32)]);
+        }
+        for vals in &self.aux_values {
+            v.extend(vals.iter().cloned());
+        }
         v
     }
 }
@@ -168,8 +255,8 @@ pub struct ShapeAir<B: SField> {
 impl<B: SField> Air for ShapeAir<B> {
     type BaseField = B;
     type PublicInputs = ShapeInputs<B>;
-    type GkrProof = ();
-    type GkrVerifier = ();
+    type GkrProof = usize;
+    type GkrVerifier = ShapeGkrVerifier;
 
     fn new(trace_info: TraceInfo, pub_inputs: ShapeInputs<B>, options: ProofOptions) -> Self {
         let s = &pub_inputs.shape;
@@ -184,7 +271,14 @@ impl<B: SField> Air for ShapeAir<B> {
                 }
             })
             .collect();
-        let context = AirContext::new(trace_info, degrees, s.asserts.len(), options).set_num_transition_exemptions(s.exempt);
+        let context = if s.aux_width() == 0 {
+            AirContext::new(trace_info, degrees, s.asserts.len(), options)
+        } else {
+            let aux_degrees = s.aux_degs.iter().map(|&d| TransitionConstraintDegree::new(d)).collect();
+            let lag = if s.lagrange { Some(s.aux_width() - 1) } else { None };
+            AirContext::new_multi_segment(trace_info, degrees, aux_degrees, s.asserts.len(), s.aux_asserts.len(), lag, options)
+        }
+        .set_num_transition_exemptions(s.exempt);
         ShapeAir { context, inputs: pub_inputs }
     }
 
@@ -229,6 +323,104 @@ impl<B: SField> Air for ShapeAir<B> {
     fn get_periodic_column_values(&self) -> Vec<Vec<B>> {
         self.inputs.shape.periodic_values::<B>()
     }
+
+    fn evaluate_aux_transition<F, E>(&self, main_frame: &EvaluationFrame<F>, aux_frame: &EvaluationFrame<E>, _periodic_values: &[F], aux_rand_elements: &[E], result: &mut [E])
+    where
+        F: FieldElement<BaseField = B>,
+        E: FieldElement<BaseField = B> + ExtensionOf<F>,
+    {
+        let s = &self.inputs.shape;
+        for j in 0..s.aux_degs.len() {
+            let m: E = main_frame.current()[j % s.width].into();
+            let r = s.rand_of(j, aux_rand_elements);
+            let cur = aux_frame.current()[j];
+            let next = aux_frame.next()[j];
+            result[j] = if s.aux_degs[j] == 1 { next - (cur + r * m) } else { next - cur * (m + r) };
+        }
+    }
+
+    fn get_aux_assertions<E: FieldElement<BaseField = B>>(&self, aux_rand_elements: &[E]) -> Vec<Assertion<E>> {
+        let s = &self.inputs.shape;
+        s.aux_asserts
+            .iter()
+            .zip(self.inputs.aux_values.iter())
+            .map(|(a, p)| {
+                let r = s.rand_of(a.col, aux_rand_elements);
+                let val = |x: B| if s.aux_degs[a.col] == 1 { r * E::from(x) } else { E::ONE };
+                match a.kind.as_str() {
+                    "single" => Assertion::single(a.col, a.first, val(p[0])),
+                    "periodic" => Assertion::periodic(a.col, a.first, a.stride, val(p[0])),
+                    _ => Assertion::sequence(a.col, a.first, a.stride, p.iter().map(|&x| val(x)).collect()),
+                }
+            })
+            .collect()
+    }
+
+    fn get_auxiliary_proof_verifier<E: FieldElement<BaseField = B>>(&self) -> ShapeGkrVerifier {
+        ShapeGkrVerifier { log_n: self.inputs.shape.n.ilog2() as usize }
+    }
+}
+
+/// Stand-in for the GKR verifier of an AIR with a Lagrange kernel column: the "proof" is log2(trace length), the
+/// Lagrange random elements are that many draws from the coin.
+#[derive(Debug, Clone, Default)]
+pub struct ShapeGkrVerifier {
+    log_n: usize,
+}
+
+#[derive(Debug)]
+pub struct GkrError(String);
+impl std::fmt::Display for GkrError {
+    fn fmt(&self, f: &mut std::fmt::Formatter<'_>) -> std::fmt::Result {
+        write!(f, "{}", self.0)
+    }
+}
+
+impl GkrVerifier for ShapeGkrVerifier {
+    type GkrProof = usize;
+    type Error = GkrError;
+
+    fn verify<E, H>(&self, gkr_proof: usize, public_coin: &mut impl RandomCoin<BaseField = E::BaseField, Hasher = H>) -> Result<LagrangeKernelRandElements<E>, GkrError>
+    where
+        E: FieldElement,
+        H: ElementHasher<BaseField = E::BaseField>,
+    {
+        if gkr_proof != self.log_n {
+            return Err(GkrError(format!("gkr proof {} does not match the trace length 2^{}", gkr_proof, self.log_n)));
+        }
+        let mut r = Vec::with_capacity(self.log_n);
+        for _ in 0..self.log_n {
+            r.push(public_coin.draw().map_err(|e| GkrError(format!("{e}")))?);
+        }
+        Ok(LagrangeKernelRandElements::new(r))
+    }
+}
+
+/// A trace with the TraceInfo of the shape (TraceTable is single-segment only).
+pub struct ShapeTrace<B: StarkField> {
+    pub main: ColMatrix<B>,
+    pub info: TraceInfo,
+}
+
+impl<B: StarkField> ShapeTrace<B> {
+    pub fn new(shape: &Shape, cols: Vec<Vec<B>>) -> Self {
+        ShapeTrace { main: ColMatrix::new(cols), info: shape.trace_info() }
+    }
+}
+
+impl<B: StarkField> Trace for ShapeTrace<B> {
+    type BaseField = B;
+    fn info(&self) -> &TraceInfo {
+        &self.info
+    }
+    fn main_segment(&self) -> &ColMatrix<B> {
+        &self.main
+    }
+    fn read_main_frame(&self, row_idx: usize, frame: &mut EvaluationFrame<B>) {
+        let next = (row_idx + 1) % self.main.num_rows();
+        self.main.read_row_into(row_idx, frame.current_mut());
+        self.main.read_row_into(next, frame.next_mut());
+    }
 }
 
 pub struct ShapeProver<B: SField, H: ElementHasher<BaseField = B>, R: RandomCoin<BaseField = B, Hasher = H>> {
@@ -236,13 +428,15 @@ pub struct ShapeProver<B: SField, H: ElementHasher<BaseField = B>, R: RandomCoin
     pub shape: Shape,
     /// public inputs to claim (normally derived from the trace; overridden by soundness scenarios)
     pub claim: Option<ShapeInputs<B>>,
+    /// soundness scenarios: add one to this cell (column, step) of the auxiliary segment after building it
+    pub aux_corrupt: Option<(usize, usize)>,
     pub _p: PhantomData<(H, R)>,
 }
 
 impl<B: SField, H: ElementHasher<BaseField = B> + Sync + Send, R: RandomCoin<BaseField = B, Hasher = H> + Send> Prover for ShapeProver<B, H, R> {
     type BaseField = B;
     type Air = ShapeAir<B>;
-    type Trace = TraceTable<B>;
+    type Trace = ShapeTrace<B>;
     type HashFn = H;
     type RandomCoin = R;
     type TraceLde<E: FieldElement<BaseField = B>> = DefaultTraceLde<E, H>;
@@ -252,7 +446,7 @@ impl<B: SField, H: ElementHasher<BaseField = B> + Sync + Send, R: RandomCoin<Bas
         if let Some(c) = &self.claim {
             return c.clone();
         }
-        let cols: Vec<Vec<B>> = (0..trace.width()).map(|c| trace.get_column(c).to_vec()).collect();
+        let cols: Vec<Vec<B>> = (0..trace.main.num_cols()).map(|c| trace.main.get_column(c).to_vec()).collect();
         ShapeInputs::from_trace(&self.shape, &cols)
     }
 
@@ -276,5 +470,21 @@ impl<B: SField, H: ElementHasher<BaseField = B> + Sync + Send, R: RandomCoin<Bas
         composition_coefficients: ConstraintCompositionCoefficients<E>,
     ) -> Self::ConstraintEvaluator<'a, E> {
         DefaultConstraintEvaluator::new(air, aux_rand_elements, composition_coefficients)
+    }
+
+    fn generate_gkr_proof<E: FieldElement<BaseField = B>>(&self, main_trace: &Self::Trace, public_coin: &mut R) -> (ProverGkrProof<Self>, LagrangeKernelRandElements<E>) {
+        let log_n = main_trace.main.num_rows().ilog2() as usize;
+        let r: Vec<E> = (0..log_n).map(|_| public_coin.draw().expect("draw")).collect();
+        (log_n, LagrangeKernelRandElements::new(r))
+    }
+
+    fn build_aux_trace<E: FieldElement<BaseField = B>>(&self, main_trace: &Self::Trace, aux_rand_elements: &AuxRandElements<E>) -> ColMatrix<E> {
+        let main: Vec<Vec<B>> = (0..main_trace.main.num_cols()).map(|c| main_trace.main.get_column(c).to_vec()).collect();
+        let lag: Option<Vec<E>> = aux_rand_elements.lagrange().map(|l| l.as_ref().to_vec());
+        let mut cols = self.shape.build_aux::<B, E>(&main, aux_rand_elements.rand_elements(), lag.as_deref());
+        if let Some((c, i)) = self.aux_corrupt {
+            cols[c][i] += E::ONE;
+        }
+        ColMatrix::new(cols)
     }
 }
